@@ -94,6 +94,8 @@ type Exec struct {
 	hnondets     []*Term // harness-level nondets in call order (the replay vector)
 	hnames       []string
 	nInternal    int
+	preemptBound int
+	preemptions  int
 }
 
 func (ex *Exec) feasible(c *Term) bool {
@@ -142,6 +144,31 @@ func (ex *Exec) known(c *Term) (bool, bool) {
 func (ex *Exec) assertLit(c *Term) {
 	ex.lits[c.id] = true
 	ex.sol.Assert(c)
+}
+
+// decideFree decides a fresh unconstrained Boolean (a scheduler choice): both outcomes are feasible, no query needed.
+func (ex *Exec) decideFree(c *Term) bool {
+	if c.IsConst() {
+		return c.IsTrue()
+	}
+	k := len(ex.decisions)
+	if k < len(ex.prefix) {
+		b := ex.prefix[k].b
+		ex.decisions = append(ex.decisions, Dec{b, 0})
+		if b {
+			ex.assertLit(c)
+		} else {
+			ex.assertLit(ex.ts.Not(c))
+		}
+		return b
+	}
+	alt := make([]Dec, k+1)
+	copy(alt, ex.decisions)
+	alt[k] = Dec{false, 0}
+	ex.pending = append(ex.pending, alt)
+	ex.decisions = append(ex.decisions, Dec{true, 0})
+	ex.assertLit(c)
+	return true
 }
 
 func (ex *Exec) decideM(c *Term, m uint64) bool {
